@@ -481,11 +481,62 @@ def _worker_task(t):
 MARKERS = ["", "q", "7", "Zz"]
 
 
+# --------------------------------------------------------------------------- part E
+# "filter chains mean what they mean in a stock Django {{ }} expression" - *in that template*: the same
+# argument text must resolve its filters against the libraries loaded by the template it is written in.
+# All histories (<= 3 templates) over two {% load %}-able libraries that define the same filter names
+# differently x 4 argument texts x both seams; oracle = stock {{ expr }} in the same template.
+E_LIBS = ("verif_a", "verif_b")
+E_EXPRS = ("price|money", "price|wrap", 'price|wrap:"+"', "price|money|upper")
+
+
+def part_E(tier):
+    import itertools
+
+    from django.template import Context, Template
+
+    st = _setup()
+    rec = st["rec"]
+    agg = par.Agg()
+    depth = 3
+    for hist in itertools.chain.from_iterable(itertools.product(E_LIBS, repeat=d) for d in range(1, depth + 1)):
+        for expr in E_EXPRS:
+            for seam in ("component", "node"):
+                agg.states += 1
+                agg.nontrivial += 1 if len(set(hist)) > 1 else 0
+                for step, lib in enumerate(hist):
+                    want = Template("{%% load %s %%}{{ %s }}" % (lib, expr)).render(Context({"price": 5}))
+                    tag = ('{%% component "probe" %s / %%}' % expr) if seam == "component" else ("{%% probe %s / %%}" % expr)
+                    del rec[:]
+                    try:
+                        Template("{%% load %s %%}%s" % (lib, tag)).render(Context({"price": 5}))
+                        got = str(rec[0][0][0]) if rec and rec[0][0] else "<nothing received>"
+                    except Exception as e:  # noqa
+                        got = "%s: %s" % (type(e).__name__, str(e)[:100])
+                    agg.transitions += 1
+                    agg.validated += 1
+                    agg.observe((lib, expr, got))
+                    agg.expected[lib] += 1
+                    if got != want:
+                        agg.fail("E:filter-resolution:%s:%s:step%d-of-%s" % (seam, expr, step, "+".join(hist)),
+                                 "[%s seam] template #%d of the history %s: `%s` after {%% load %s %%} received %r, stock {{ %s }} in the same template gives %r"
+                                 % (seam, step + 1, list(hist), expr, lib, got, expr, want),
+                                 {"part": "E", "history": list(hist), "expr": expr, "seam": seam})
+                        break
+    boot.clear_render_registries()
+    return agg
+
+
 def run(ctx):
     ev, fnd = ctx.ev, ctx.fnd
     marker = MARKERS[ctx.seed % len(MARKERS)]
     _setup()
     _selftest(ctx.tier, marker)
+    e = part_E(ctx.tier)
+    ev.add_part("filter_resolution_per_template", states=e.states, transitions=e.transitions, validated=e.validated, nontrivial=e.nontrivial,
+                observed_distinct=len(e.observed), expected=e.expected, bound={"libraries": 2, "history_depth": 3, "expressions": len(E_EXPRS), "seams": 2},
+                samples=[{"history": ["verif_a", "verif_b"], "expr": E_EXPRS[0], "seam": "component"}])
+    fnd.merge_reports(e.failures[:20])
     W = par.NWORKERS
     results = par.run_tasks(_worker_task, [(w, W, (ctx.tier, marker)) for w in range(W)])
     total = {}
@@ -533,6 +584,12 @@ def _selftest(tier, marker):
 
 
 def replay(ctx, case):
+    if case.get("part") == "E":
+        _setup()
+        e = part_E("quick")
+        for f in e.failures[:5]:
+            print(f[1])
+        return not e.failures
     _setup()
     args = g.freeze(case["args"])
     marker = case.get("marker", "")
